@@ -1,10 +1,9 @@
 /* C08: environment for the mock engine.
  * Solver world: every allocation is served from small STATIC blocks, one pool per size class, first fit
  * (a released block is handed out again at once).  Static typed storage keeps pointers and the bytes of the
- * short concrete strings (type names, messages) visible to constant propagation; CBMC heap objects do not,
- * and then every list walk unwinds to the bound (measured: no verdict in 900 s for 1 expectation / 1 call).
+ * short concrete strings (function / parameter / type names) visible to constant propagation; CBMC heap objects
+ * do not, and then every list walk unwinds to the bound (measured: no verdict in 900 s for 1 expectation / 1 call).
  * Native worlds (differential runs, replays): plain malloc. */
-#define ENV_CUSTOM_VSNPRINTF
 #define ENV_CUSTOM_MALLOC
 #define ENV_CUSTOM_NEW
 #include "env.c"
@@ -25,10 +24,8 @@
 /* string buffers (bytes) */
 #define BLKD_s8_(n) BLK(uint8_t, n, 8)
 #define BLKD_s32_(n) BLK(uint8_t, n, 32)
-#define BLKD_s256_(n) BLK(uint8_t, n, 256)
 POOL(X24, uint8_t, s8_, 8)
 POOL(X8, uint8_t, s32_, 32)
-POOL(X4, uint8_t, s256_, 256)
 /* objects (words) */
 #define BLKD_o8_(n) BLK(uint64_t, n, 1)
 #define BLKD_o16_(n) BLK(uint64_t, n, 2)
@@ -40,13 +37,13 @@ POOL(X8, uint64_t, o88_, 11)
 POOL(X4, uint64_t, o160_, 20)
 uint8_t* env_malloc(uint64_t n) {
   env_malloc_calls++; env_last_malloc_size = n;
-  ENV_ENGINE_ASSERT(n <= 256, "string buffer larger than the model's block (bound too small)");
-  return n <= 8 ? s8_alloc() : n <= 32 ? s32_alloc() : s256_alloc();
+  ENV_ENGINE_ASSERT(n <= 32, "string buffer larger than the model's block (bound too small)");
+  return n <= 8 ? s8_alloc() : s32_alloc();
 }
 void env_free(uint8_t* p) {
   env_free_calls++;
   if (!p) return;
-  int ok = s8_free(p) || s32_free(p) || s256_free(p);
+  int ok = s8_free(p) || s32_free(p);
   ENV_ENGINE_ASSERT(ok, "free of a foreign pointer");
 }
 uint8_t* env_realloc(uint8_t* p, uint64_t n) { (void)p; (void)n; ENV_ENGINE_ASSERT(0, "realloc is not used by the mock engine"); return 0; }
@@ -78,10 +75,3 @@ void _ZdaPvm(uint8_t* p, uint64_t n) { (void)n; free(p); }
 #endif
 #include "translated.h"
 
-/* message text is not the subject (C14): formatted pieces render as '#' + the 14th character of the format,
- * which tells the three formatted first lines apart */
-uint32_t env_vsnprintf(uint8_t* s, uint64_t n, uint8_t* f, uint8_t* va) {
-  (void)va;
-  if (n > 2) { s[0] = '#'; s[1] = (f[0] == 'M' && f[1] == 'o' && f[2] == 'c' && f[3] == 'k') ? f[14] : '?'; s[2] = 0; } else if (n) s[0] = 0;
-  return 2;
-}
